@@ -52,4 +52,10 @@ theorem C11_spec_rejects (k : Kind) (keep : Bool) (pre post : List Obs) (ob : Ob
   | false => rfl
   | true => rw [C11_spec_every_step k keep pre post ob h] at hs; cases hs
 
+/-- non-vacuity: the hypothesis of `C11_spec_every_step` is met by EVERY history of the model, at every position -/
+theorem C11_model_every_step (k : Kind) (keep : Bool) (scripts : List Script) (ops : List Op)
+    (pre post : List Obs) (ob : Obs) (hsplit : run scripts (init k keep) ops = pre ++ ob :: post) :
+    specStep false (stAfter (init k keep) pre) ob = none :=
+  C11_spec_every_step k keep pre post ob (hsplit ▸ C11_spec_holds k keep scripts ops)
+
 end AsynqModel.Batching
